@@ -485,3 +485,97 @@ func HsName(t uint8) string {
 	}
 	return fmt.Sprintf("hs(%d)", t)
 }
+
+// LenField locates a length or count field inside a handshake body.
+type LenField struct {
+	Off, Width int
+}
+
+// LengthFields returns the positions of the vector length fields of a
+// well-formed message body (used to perturb exactly one of them).
+func LengthFields(typ uint8, b []byte) []LenField {
+	var out []LenField
+	add := func(off, w int) bool {
+		if off+w > len(b) {
+			return false
+		}
+		out = append(out, LenField{off, w})
+		return true
+	}
+	get := func(off, w int) int {
+		v := 0
+		for i := 0; i < w; i++ {
+			v = v<<8 | int(b[off+i])
+		}
+		return v
+	}
+	exts := func(off int) {
+		if !add(off, 2) {
+			return
+		}
+		end := off + 2 + get(off, 2)
+		off += 2
+		for off+4 <= end && off+4 <= len(b) {
+			if !add(off+2, 2) {
+				return
+			}
+			off += 4 + get(off+2, 2)
+		}
+	}
+	switch typ {
+	case HsClientHello:
+		off := 34
+		if !add(off, 1) {
+			return out
+		}
+		off += 1 + get(off, 1)
+		if !add(off, 2) {
+			return out
+		}
+		off += 2 + get(off, 2)
+		if !add(off, 1) {
+			return out
+		}
+		off += 1 + get(off, 1)
+		if off < len(b) {
+			exts(off)
+		}
+	case HsServerHello:
+		off := 34
+		if !add(off, 1) {
+			return out
+		}
+		off += 1 + get(off, 1) + 3
+		if off < len(b) {
+			exts(off)
+		}
+	case HsCertificate:
+		if !add(0, 3) {
+			return out
+		}
+		off := 3
+		for off+3 <= len(b) {
+			add(off, 3)
+			off += 3 + get(off, 3)
+		}
+	case HsServerKeyExchange, HsClientKeyExchange, HsCertificateVerify:
+		add(0, 2)
+	case HsCertificateRequest:
+		if !add(0, 1) {
+			return out
+		}
+		off := 1 + get(0, 1)
+		if !add(off, 2) {
+			return out
+		}
+		end := off + 2 + get(off, 2)
+		off += 2
+		for off+2 <= end && off+2 <= len(b) {
+			add(off, 2)
+			off += 2 + get(off, 2)
+		}
+	case HsNewSessionTicket:
+		add(4, 2)
+	}
+	return out
+}
